@@ -5,7 +5,7 @@
    numerics (Cholesky, CG, Lanczos) with exact algebra. *)
 From Coq Require Import Arith List ZArith QArith Qcanon.
 From GPV Require Import Base.LinAlg Base.Exec Models.C01_posterior Proofs.C01_posterior
-  Models.C09_structured Proofs.C09_structured.
+  Models.C09_structured Proofs.C09_structured Proofs.C09_textbook.
 Import ListNotations.
 Local Open Scope fld_scope.
 
@@ -218,6 +218,33 @@ Theorem c09_dense_mean_is_c01 :
 Proof. intros K. exact (@dense_mean_is_c01 K). Qed.
 Print Assumptions c09_dense_mean_is_c01.
 
+(* the textbook SGPR predictive equations (Titsias 2009), with s = test points:
+     Sigma = (Kzz + Kzx D^-1 Kxz)^-1,  mean = Ksz Sigma Kzx D^-1 r,
+     cov = Kss - Ksz Kzz^-1 Kzs + Ksz Sigma Kzs
+   ARE the dense Gaussian conditional for the Nystrom train covariance Q + D and cross covariance
+   Ksz Kzz^-1 Kzx:
+   all sizes, any invertible (not only homoskedastic) noise D *)
+Theorem c09_sgpr_textbook_mean_is_dense_conditional :
+  forall (K : Fld) n m t Kzz Kzzi Kxz Ksz D Di Sigma Ainv,
+    is_inverse m Kzz Kzzi -> is_inverse n D Di ->
+    is_inverse m (sgpr_sigma_arg n m Kzz Kxz Di) Sigma ->
+    is_inverse n (madd (nystrom m Kxz Kzzi Kxz) D) Ainv ->
+    forall r ms,
+    meq t 1 (sgpr_textbook_mean n m Ksz Sigma Kxz Di r ms)
+            (dense_mean n ms (nystrom m Ksz Kzzi Kxz) Ainv r).
+Proof. intros K. exact (@sgpr_textbook_mean_dense K). Qed.
+Print Assumptions c09_sgpr_textbook_mean_is_dense_conditional.
+
+Theorem c09_sgpr_textbook_cov_is_dense_conditional :
+  forall (K : Fld) n m t Kzz Kzzi Kxz Ksz Kss D Di Sigma Ainv,
+    symmetric m Kzz -> is_inverse m Kzz Kzzi -> is_inverse n D Di ->
+    is_inverse m (sgpr_sigma_arg n m Kzz Kxz Di) Sigma ->
+    is_inverse n (madd (nystrom m Kxz Kzzi Kxz) D) Ainv ->
+    meq t t (sgpr_textbook_cov m Kss Ksz Kzzi Sigma)
+            (dense_cov n Kss (nystrom m Ksz Kzzi Kxz) Ainv).
+Proof. intros K. exact (@sgpr_textbook_cov_dense K). Qed.
+Print Assumptions c09_sgpr_textbook_cov_is_dense_conditional.
+
 (* Titsias regularisation term as coded = -tr(K - Q)/(2 s2) for homoskedastic noise *)
 Theorem c09_titsias_trace_term :
   forall (K : Fld) n Kd Q s2, (1 + 1 : car) <> 0 -> s2 <> 0 ->
@@ -240,15 +267,75 @@ Theorem c09_interp_cov_is_dense_conditional :
 Proof. intros K. exact (@interp_pred_cov_root_dense K). Qed.
 Print Assumptions c09_interp_cov_is_dense_conditional.
 
-(* WISKI fantasy update of the W^T D^-1 W cache = the cache of the concatenated data.
-   PARTIAL: the fantasy mean / covariance caches built from a Cholesky root of this matrix
-   (fantasy_mean_cache, fantasy_covar_cache) are only tested against conditioning from scratch *)
-Theorem c09_wiski_inner_update_partial :
+(* fast_pred_samples: the cached factor is ANY root Rin of Kuu - C C^T (C = the fast_pred_var cache
+   Kuu W^T S); the returned Root(Ws Rin) is the dense conditional whose test prior covariance is
+   the KISS-GP kernel Ws Kuu Ws^T itself *)
+Theorem c09_interp_cov_samples_is_dense_conditional :
+  forall (K : Fld) n g q p t Kuu W Ws S Rin Ainv,
+    meq n n (mmul q S (mT S)) Ainv ->
+    meq g g (mmul p Rin (mT Rin))
+            (msub Kuu (mmul q (interp_covar_cache n g Kuu W S) (mT (interp_covar_cache n g Kuu W S)))) ->
+    meq t t (interp_pred_cov_samples g p Ws Rin)
+            (dense_cov n (ski g Ws Kuu Ws) (ski g Ws Kuu W) Ainv).
+Proof. intros K. exact (@interp_pred_cov_samples_dense K). Qed.
+Print Assumptions c09_interp_cov_samples_is_dense_conditional.
+
+(* WISKI fantasy update of the W^T D^-1 W cache = the cache of the concatenated data.  The fantasy
+   mean and covariance caches built from a root of this matrix are proved below (the three
+   c09_wiski_fantasy theorems); what stays tested only is the numerics of the jittered Cholesky
+   roots the code takes of W^T D^-1 W and of the inner cache *)
+Theorem c09_wiski_inner_update :
   forall (K : Fld) n f g Wt Wft Di Dfi,
     meq g g (wiski_inner (n + f) (hstack n Wt Wft) (blk n n Di mzero mzero Dfi))
             (madd (wiski_inner n Wt Di) (wiski_inner f Wft Dfi)).
 Proof. intros K. exact (@wiski_inner_update K). Qed.
-Print Assumptions c09_wiski_inner_update_partial.
+Print Assumptions c09_wiski_inner_update.
+
+(* WISKI fantasy_mean_cache as coded: with P = W^T D^-1 W (the updated interp_inner_prod of ALL
+   data, by c09_wiski_inner_update), ANY root L of P (the code: jittered Cholesky), the
+   response cache c = W^T D^-1 r and Qi = (I + L^T Kuu L)^-1,
+       Kuu c - (Kuu L) Qi (L^T Kuu c)
+   is the KISS-GP mean cache Kuu W^T (W Kuu W^T + D)^-1 r of the concatenated data, i.e.
+   (c09_interp_mean_is_dense_conditional) fantasy predictions are those of conditioning from
+   scratch.  First: the coded expression solves (I + Kuu P) x = Kuu c — no invertibility needed *)
+Theorem c09_wiski_fantasy_mean_cache_solves :
+  forall (K : Fld) n g q Kuu Wt Di L Qi,
+    meq g g (mmul q L (mT L)) (wiski_inner n Wt Di) ->
+    is_inverse q (madd mI (mmul g (mT L) (mmul g Kuu L))) Qi ->
+    forall c,
+    meq g 1 (mmul g (madd mI (mmul g Kuu (wiski_inner n Wt Di))) (wiski_fantasy_mean_cache g q Kuu L Qi c))
+            (mmul g Kuu c).
+Proof. intros K. exact (@wiski_cache_solves K). Qed.
+Print Assumptions c09_wiski_fantasy_mean_cache_solves.
+
+Theorem c09_wiski_fantasy_mean_cache_is_kiss_mean_cache :
+  forall (K : Fld) n g q Kuu Wt Di D L Qi Ainv,
+    is_inverse n D Di ->
+    meq g g (mmul q L (mT L)) (wiski_inner n Wt Di) ->
+    is_inverse q (madd mI (mmul g (mT L) (mmul g Kuu L))) Qi ->
+    is_inverse n (madd (ski g (mT Wt) Kuu (mT Wt)) D) Ainv ->
+    forall Bi r,
+    is_inverse g (madd mI (mmul g Kuu (wiski_inner n Wt Di))) Bi ->
+    meq g 1 (wiski_fantasy_mean_cache g q Kuu L Qi (wiski_response n Wt Di r))
+            (interp_mean_cache n g Kuu (mT Wt) Ainv r).
+Proof. intros K. exact (@wiski_fantasy_mean_cache_correct K). Qed.
+Print Assumptions c09_wiski_fantasy_mean_cache_is_kiss_mean_cache.
+
+(* WISKI fantasy covariance: inner_cache = (Kuu L) Qi (Kuu L)^T as coded (fantasy_covar_cache
+   without fast_pred_var; the code then uses a root of it) gives the predictive covariance
+   Tss - Ws inner_cache Ws^T = the dense conditional of W Kuu W^T + D on ALL the data *)
+Theorem c09_wiski_fantasy_pred_cov_is_dense_conditional :
+  forall (K : Fld) n g q Kuu Wt Di D L Qi Ainv,
+    is_inverse n D Di ->
+    meq g g (mmul q L (mT L)) (wiski_inner n Wt Di) ->
+    is_inverse q (madd mI (mmul g (mT L) (mmul g Kuu L))) Qi ->
+    is_inverse n (madd (ski g (mT Wt) Kuu (mT Wt)) D) Ainv ->
+    symmetric g Kuu ->
+    forall Bi, is_inverse g (madd mI (mmul g Kuu (wiski_inner n Wt Di))) Bi ->
+    forall t Tss Ws,
+    meq t t (wiski_pred_cov g q Kuu L Qi t Tss Ws) (dense_cov n Tss (ski g Ws Kuu (mT Wt)) Ainv).
+Proof. intros K. exact (@wiski_pred_cov_dense K). Qed.
+Print Assumptions c09_wiski_fantasy_pred_cov_is_dense_conditional.
 
 (* ------------------------------------------------------------------ RFF strategy *)
 
@@ -272,3 +359,22 @@ Example ex_root_hypothesis :
 Proof. exact ex_root_hyp. Qed.
 Example ex_valid_multi : valid_multi [4; 5]%nat [2; 3]%nat.
 Proof. exact ex_valid_multi_45. Qed.
+Example ex_sgpr_textbook_hypotheses :
+  symmetric 1 tbKzz /\ is_inverse 1 tbKzz tbKzz /\ is_inverse 2 tbD tbDi
+  /\ is_inverse 1 (sgpr_sigma_arg 2 1 tbKzz tbKxz tbDi) tbSigma
+  /\ is_inverse 2 (madd (nystrom 1 tbKxz tbKzz tbKxz) tbD) tbAinv.
+Proof. exact ex_textbook_hyps. Qed.
+Example ex_wiski_hypotheses :
+  is_inverse 2 tbD tbDi
+  /\ meq 2 2 (mmul 2 wkL (mT wkL)) (wiski_inner 2 wkWt tbDi)
+  /\ is_inverse 2 (madd mI (mmul 2 (mT wkL) (mmul 2 wkKuu wkL))) wkQi
+  /\ is_inverse 2 (madd (ski 2 (mT wkWt) wkKuu (mT wkWt)) tbD) wkAinv
+  /\ is_inverse 2 (madd mI (mmul 2 wkKuu (wiski_inner 2 wkWt tbDi))) wkQi
+  /\ symmetric 2 wkKuu.
+Proof. exact ex_wiski_hyps. Qed.
+Example ex_fast_pred_samples_hypotheses :
+  meq 1 1 (mmul 1 fsS (mT fsS)) (of_list [[qc 9 25]] : @M QcF) /\
+  meq 1 1 (mmul 1 fsRin (mT fsRin))
+          (msub fsKuu (mmul 1 (interp_covar_cache 1 1 fsKuu fsKuu fsS)
+                              (mT (interp_covar_cache 1 1 fsKuu fsKuu fsS)))).
+Proof. exact ex_samples_hyps. Qed.
